@@ -534,3 +534,37 @@ package mcp
 //@   assert at call addBatch: @only-calls-are-tracked forall id jsonrpc2.ID :: {inDom($1.unresolved, id)} id in $1.unresolved ==> id.value != nil
 //@   loop 1: invariant @only-calls-are-tracked local(respBatch) != nil ==> local(respBatch).unresolved != nil
 //@        && (forall id jsonrpc2.ID :: {inDom(local(respBatch).unresolved, id)} id in local(respBatch).unresolved ==> id.value != nil)
+
+// ---------------------------------------------------------------------------------------------
+// C12: HTTP preconditions before dispatch; header mirroring under 2026-07-28
+// ---------------------------------------------------------------------------------------------
+
+// The front gate of the streamable handler: a request is handed on (to the stateless or stateful path) at most once,
+// never after a rejection, only if the loopback-Host, cross-origin and protocol-version-header gates pass, and only
+// with its body wrapped in the size limiter whenever a limit is configured.
+//@ func (*StreamableHTTPHandler).ServeHTTP [C12]
+//@   track util.IsLoopback as loopback
+//@   track http.MaxBytesReader as limit
+//@   track http.Error as reject
+//@   track Check as originCheck
+//@   track serveStateless as stateless
+//@   track serveStateful as stateful
+//@   ghost dispatched := calls(stateless) + calls(stateful)
+//@   ghost pv := old(hdrGet(req.Header, protocolVersionHeader))
+//@   modifies *
+//@   requires h != nil && req != nil
+//@   ensures @dispatch-or-reject dispatched <= 1 && (dispatched == 1 ==> calls(reject) == 0) && (dispatched == 0 ==> calls(reject) == 1)
+//@   ensures @body-is-bounded dispatched == 1 && old(req.Body != nil) && old(h.opts.MaxRequestBodyBytes) > 0 ==> calls(limit) == 1 && callArg(limit, 1, 2) == old(h.opts.MaxRequestBodyBytes)
+//@   ensures @loopback-listener-needs-loopback-host calls(loopback) == 2 && callResult(loopback, 1, 0) && !callResult(loopback, 2, 0) ==> dispatched == 0 && callArg(reject, 1, 2) == 403
+//@   ensures @cross-origin-rejected calls(originCheck) == 1 && callResult(originCheck, 1, 0) != nil ==> dispatched == 0 && callArg(reject, 1, 2) == 403
+//@   ensures @unknown-legacy-version-rejected pv != "" && !sdkSupports(pv) && legacy(pv) ==> dispatched == 0
+//@   ensures @stateless-iff-configured (calls(stateless) == 1 ==> old(h.opts.Stateless)) && (calls(stateful) == 1 ==> !old(h.opts.Stateless))
+
+// x-mcp-header bindings: every binding produced gets its own freshly allocated path (a path that shared storage with
+// the caller's prefix would be overwritten by the next sibling), and earlier bindings are left alone.
+//@ func collectParamHeaderAnnotations [C12]
+//@   modifies elems(out), allElems("string"), allElems("paramHeaderBinding"), reach(props)
+//@   ensures @keeps-earlier-bindings len(result) >= len(out) && (forall i int :: {absElem(result, off(result) + i)} 0 <= i && i < len(out) ==> result[i] == old(out[i]))
+//@   ensures @new-paths-are-private forall i int :: {absElem(result, off(result) + i)} len(out) <= i && i < len(result) ==> fresh(result[i].Path)
+//@   loop 1: invariant @keeps-earlier-bindings len(local(out)) >= len(out) && (forall i int :: {absElem(local(out), off(local(out)) + i)} 0 <= i && i < len(out) ==> local(out)[i] == old(out[i]))
+//@   loop 1: invariant @new-paths-are-private forall i int :: {absElem(local(out), off(local(out)) + i)} len(out) <= i && i < len(local(out)) ==> fresh(local(out)[i].Path)
